@@ -40,6 +40,8 @@ for rnd, incname in ((1, '_incoming'), (2, '_incoming2'), (3, '_incoming3'), (4,
         screened = (not row) and SCREEN.get(mkey, {}).get('own_check_reports_it')
         if screened:
             own = True; caught = [prop + ' (own check only; the other checks were not run on this change)']
+        elif row.get('_own_check_only') and own:
+            caught = [prop + ' (own check only; the other checks were not run on this change)']
         meta = {
             'id': sid, 'property': prop, 'round': rnd, 'source': 'independent sub-agent given only the property text and a scratch worktree of /repo' + (' (round %d: told which ideas were already used, asked for different ones)' % rnd if rnd > 1 else ''),
             'summary': am.get('summary'), 'needs_to_manifest': am.get('needs_to_manifest'), 'files_touched': am.get('files_touched'),
@@ -71,10 +73,18 @@ with open(os.path.join(HERE, 'seeded', 'README.md'), 'w') as f:
         if key.startswith('F'):
             row = matrix[key]
             f.write('| %s | %s |\n' % (key, ' '.join(sorted(c for c, r in row.items() if isinstance(r, dict) and not c.startswith('_') and r.get('rc') == 1))))
-    f.write('\n## Negative controls (seeded/_negative): behaviour-preserving edits, every check must stay silent\n\n| patch | checks that raised anything |\n|---|---|\n')
-    for key in sorted(matrix):
-        if key.startswith('N'):
-            row = matrix[key]
-            noisy = sorted(c for c, r in row.items() if isinstance(r, dict) and not c.startswith('_') and r.get('rc') != 0)
-            f.write('| %s | %s |\n' % (key, ' '.join(noisy) or 'none'))
+    f.write('\n## Negative controls (seeded/_negative): behaviour-preserving edits, every check must stay silent\n\n'
+            'N* were written with the checks; R_* (57) and S_* (31) are refactors by independent sub-agents (DESIGN.md section 8), each confirmed to pass the\n'
+            'suite and its own equivalence demonstration with and without the patch. `row computed at` is the commit of /verif whose checks were run; R_ rows that\n'
+            'show an alarm were computed before the repair named in DESIGN.md and re-run afterwards (the later row replaces the earlier one where it exists).\n\n'
+            '| patch | checks that raised anything | row computed at |\n|---|---|---|\n')
+    neg = sorted(os.path.basename(p)[:-5] for p in glob.glob(os.path.join(HERE, 'seeded', '_negative', '*.diff')))
+    for key in neg:
+        row = matrix.get(key)
+        if not row:
+            f.write('| %s | (all-checks row not computed; silent under its own property\'s check, C02 and C16 when it was screened) | |\n' % key); continue
+        noisy = sorted(c for c, r in row.items() if isinstance(r, dict) and not c.startswith('_') and r.get('rc') != 0)
+        f.write('| %s | %s | %s |\n' % (key, ' '.join(noisy) or 'none', (row.get('_at') or {}).get('verif', 'earlier')))
+    unrec = sorted(os.path.basename(p)[:-5] for p in glob.glob(os.path.join(HERE, 'seeded', '_unrecognised', '*.diff')))
+    f.write('\n## Behaviour-preserving refactors that still raise `unrecognised` (seeded/_unrecognised)\n\nIdioms the rule language does not know (DESIGN.md section 8); reported as "cannot decide", never as a wrong verdict: %s\n' % ', '.join(unrec))
 print(len(rows), 'seeds organised; not caught by own check:', [r[0] for r in rows if not r[4]], 'caught by none:', [r[0] for r in rows if not r[3]])
